@@ -1,0 +1,19 @@
+//go:build verif
+
+package basiccheck
+
+// Machine-checked contracts for /verif (read as text by the VC generator; no code).
+//
+//@ const Lim = 2147483646
+//@ spec limits(e dag.Event) bool = e.Seq() < Lim && e.Epoch() < Lim && e.Frame() < Lim && e.Lamport() < Lim
+//@ spec inited(e dag.Event) bool = e.Seq() >= 1 && e.Epoch() >= 1 && e.Frame() >= 1 && e.Lamport() >= 1 && (e.Seq() > 1 ==> len(e.Parents()) > 0)
+//@
+//@ func (*Checker).checkLimits
+//@   requires e != nil
+//@   ensures  (result == nil) == limits(e)
+//@ func (*Checker).checkInited
+//@   requires e != nil
+//@   ensures  (result == nil) == inited(e)
+//@ func (*Checker).Validate
+//@   requires e != nil
+//@   ensures  (result == nil) == (limits(e) && inited(e) && distinctN(e.Parents(), len(e.Parents())))
